@@ -325,6 +325,9 @@ inline Json::Value expectCg(
   e["file_usage"] = file >= 0 ? J(file) : Json::Value();
   e["shmem_usage"] = shmem >= 0 ? J(shmem) : Json::Value();
   e["effective_usage"] = (double)((long double)cur - std::floor(protection(w, path, rootCur)));
+  // usage - protection is a difference: its rounding error is that of the operands (the protection is a product
+  // computed in double), not that of the possibly much smaller result
+  e["effective_usage.tol"] = (double)std::ldexp(std::max((long double)cur, std::floor(protection(w, path, rootCur))), -48);
   applyFaults(e, w, path);
   return e;
 }
@@ -348,7 +351,7 @@ inline std::string cmpField(const std::string& f, const Json::Value& exp, const 
     long double a = exp.asDouble(), b = obs.isIntegral() ? (long double)obs.asInt64() : (long double)obs.asDouble();
     // each level of the hierarchy rounds its ratio in double and truncates its result to an integer, and the
     // errors compound down the tree (depth <= 4 here): one unit per level plus a few ulps of the magnitude
-    long double tol = 4.0L + std::fabs(a) * std::ldexp(1.0L, -48);
+    long double tol = 4.0L + std::fabs(a) * std::ldexp(1.0L, -48) + abstol;
     if (std::fabs(a - b) <= tol) return "";
     return f + ": expected " + show(exp) + ", observed " + show(obs);
   }
